@@ -287,10 +287,12 @@ def cases(tier, seed):
         for alg in ("default", "LSTSQ"):
             out.append((f"pinv-product:{nm}:{alg}", case_pinv_product, dict(shapes=shp, alg=alg), dict(partial_ok=True)))
     shapes = [(2, 2), (3, 2), (2, 3), (3, 3), (1, 2), (2, 1)]
+    if tier == "thorough":
+        shapes += [(4, 3), (3, 4), (4, 4), (4, 2), (2, 4), (1, 3), (3, 1)]
     for (m, n) in shapes:
         out.append((f"svd:{m}x{n}", case_svd, dict(m=m, n=n, complex_=False, algs=["Auto", "DenseSVD"])))
         out.append((f"pinv:{m}x{n}", case_pinv, dict(m=m, n=n, complex_=False, algs=["default", "Auto", "LSTSQ"])))
-    for (m, n) in [(2, 2), (3, 2), (2, 3)]:
+    for (m, n) in [(2, 2), (3, 2), (2, 3)] + ([(3, 3), (1, 2), (2, 1)] if tier == "thorough" else []):
         out.append((f"svd-complex:{m}x{n}", case_svd, dict(m=m, n=n, complex_=True, algs=["DenseSVD"])))
         out.append((f"pinv-complex:{m}x{n}", case_pinv, dict(m=m, n=n, complex_=True, algs=["default"])))
         out.append((f"pinv-real-A-complex-b:{m}x{n}", case_pinv, dict(m=m, n=n, complex_=False, algs=["default"], rhs_complex=True)))
